@@ -828,6 +828,51 @@ func (c *Ctx) c07File(sm *storeModel) {
 			r.Bad("C07/ONLY-NAMED", "file:"+shortFn(rm), p.InstrPos(call), "the raw file unlinked does not belong to the element found by id")
 		}
 	})
+	// the unlink may sit in a helper that removes "the element at position i" (removeAt(i)):
+	// the position removeMessage passes must be the one selected under the id-equality branch
+	eng.EachInstr(rm, func(in ssa.Instruction) {
+		hc, ok := in.(*ssa.Call)
+		if !ok {
+			return
+		}
+		g := eng.StaticCallee(hc.Common())
+		if g == nil || g == rm || len(g.Blocks) == 0 || eng.FuncPkgPath(g) != eng.FuncPkgPath(rm) {
+			return
+		}
+		eng.EachInstr(g, func(gi ssa.Instruction) {
+			call, ok := gi.(*ssa.Call)
+			if !ok || eng.CalleeName(call.Common()) != "os.Remove" {
+				return
+			}
+			rc, ok := call.Call.Args[0].(*ssa.Call)
+			if !ok || eng.StaticCallee(rc.Common()) != rawPath {
+				return
+			}
+			u, ok := resolveCell(rc.Call.Args[0]).(*ssa.UnOp)
+			if !ok {
+				return
+			}
+			ia, ok := u.X.(*ssa.IndexAddr)
+			if !ok {
+				return
+			}
+			prm, ok := eng.StripConv(ia.Index).(*ssa.Parameter)
+			if !ok || prm.Parent() != g {
+				return
+			}
+			pi := eng.ParamIndex(prm)
+			if pi < 0 || pi >= len(hc.Call.Args) {
+				return
+			}
+			n++
+			cons := "file:" + shortFn(rm) + "→" + shortFn(g)
+			if c.foundIdx(hc.Call.Args[pi], id) || underIdEquality(hc.Block(), id) {
+				r.Ok("C07/ONLY-NAMED", cons, p.InstrPos(hc), "%s unlinks rawPath() of the element at the position it is given; removeMessage passes the position selected under the id-equality branch", shortFn(g))
+			} else {
+				r.Bad("C07/ONLY-NAMED", cons, p.InstrPos(hc), "the position handed to %s is not the one of the element found by id: another message's raw file is unlinked", shortFn(g))
+			}
+		})
+	})
 	r.Floor("C07/ONLY-NAMED", "raw-file unlinks in file removeMessage", n, 1)
 }
 
